@@ -87,11 +87,12 @@ type c20case struct {
 	Prepares int
 	Proof    bool
 	Block    bool
+	Mix      string // NEW_VIEW only: which votes carry a proof and how the proofs differ: "" every second vote, identical proofs | "all" every vote, each proof with its own PREPARE senders (different members, count, order) and proven view | "tail" only the last two votes, distinct proofs
 	PKind    string // "" same view in both refs | "mismatch" PREPAREs of another view than the PREPREPARE | "nopp" no PREPREPARE part
 }
 
 func c20(r *Rec, replay map[string]interface{}) {
-	r.Rule = "five message types built by the real MessageFactory over heights/views/instances {0,1,255,2^32,2^63,2^64-1}, ids/hashes/signatures/shares of length {0,1,7,8,9,32,33,256} with patterns {hash-derived,0x00,0xFF,counting}, votes {0,1,2,4,20}, prepare senders {0,1,3,20}, with/without proof and block (one-factor-at-a-time around three base points plus the full product of lengths x patterns); oracle: ToConsensusRawMessage -> ToConsensusMessage gives equal type/fields/nested proofs/votes, every signature that verified before verifies over the re-read header bytes (incl. votes re-encoded into a NEW_VIEW and block proofs from commits), parsing twice is identical. distinct_nontrivial = distinct cases"
+	r.Rule = "five message types built by the real MessageFactory over heights/views/instances {0,1,255,2^32,2^63,2^64-1}, ids/hashes/signatures/shares of length {0,1,7,8,9,32,33,256} with patterns {hash-derived,0x00,0xFF,counting}, votes {0,1,2,4,20}, prepare senders {0,1,3,20}, with/without proof and block, NEW_VIEWs whose votes carry pairwise different proofs (other PREPARE senders, counts, order, proven view; every vote or only the last two) (one-factor-at-a-time around three base points plus the full product of lengths x patterns); oracle: ToConsensusRawMessage -> ToConsensusMessage gives equal type/fields/nested proofs/votes, every signature that verified before verifies over the re-read header bytes (incl. votes re-encoded into a NEW_VIEW and block proofs from commits), parsing twice is identical. distinct_nontrivial = distinct cases"
 	nums := []uint64{0, 1, 255, 1 << 32, 1 << 63, math.MaxUint64}
 	lens := []int{0, 1, 7, 8, 9, 32, 33, 256}
 	pats := []string{"hash", "zero", "ff", "count"}
@@ -145,6 +146,19 @@ func c20(r *Rec, replay map[string]interface{}) {
 						add(c)
 					}
 				}
+				if k == "NV" {
+					for _, mix := range []string{"all", "tail"} {
+						for _, nv := range []int{2, 3, 4, 20} {
+							for _, np := range []int{1, 3} {
+								for _, pk := range []string{"", "mismatch", "nopp"} {
+									c := b
+									c.Proof, c.Mix, c.Votes, c.Prepares, c.PKind = true, mix, nv, np, pk
+									add(c)
+								}
+							}
+						}
+					}
+				}
 				for _, nv := range []int{0, 1, 2, 4, 20} {
 					for _, np := range []int{0, 1, 3, 20} {
 						for _, pf := range []bool{true, false} {
@@ -176,6 +190,9 @@ func c20(r *Rec, replay map[string]interface{}) {
 			Votes: int(m["Votes"].(float64)), Prepares: int(m["Prepares"].(float64)), Proof: m["Proof"].(bool), Block: m["Block"].(bool)}
 		if pk, ok := m["PKind"].(string); ok {
 			c.PKind = pk
+		}
+		if mx, ok := m["Mix"].(string); ok {
+			c.Mix = mx
 		}
 		c.Inst, c.Height, c.View = f2u(m["Inst"]), f2u(m["Height"]), f2u(m["View"])
 		c20one(r, c)
@@ -299,7 +316,39 @@ func c20body(c c20case, bad func(clause, format string, a ...interface{})) {
 			bad("proof-presence-changed", "%s: an absent PREPREPARE part became present", what)
 		}
 	}
-	prepared := func(view primitives.View) *preparedmessages.PreparedMessages {
+	// preparedVar: the k-th distinct proof (k>0): other PREPARE senders (other members, another count, reversed
+	// order for odd k), an earlier proven view where there is room — so that no two votes of a NEW_VIEW share a part
+	var prepared func(view primitives.View) *preparedmessages.PreparedMessages
+	preparedVar := func(view primitives.View, k int) *preparedmessages.PreparedMessages {
+		if k == 0 {
+			return prepared(view)
+		}
+		if uint64(view) >= uint64(k) {
+			view -= primitives.View(k)
+		}
+		lf, _ := fac(100 + 40*k)
+		pm := &preparedmessages.PreparedMessages{PreprepareMessage: lf.CreatePreprepareMessage(H, view, blk, hash)}
+		pview := view
+		switch c.PKind {
+		case "mismatch":
+			pview = view + 1
+		case "nopp":
+			pm.PreprepareMessage = nil
+			pview = view + 2
+		}
+		np := c.Prepares + k%3
+		for i := 0; i < np; i++ {
+			pf, _ := fac(101 + 40*k + i)
+			pm.PrepareMessages = append(pm.PrepareMessages, pf.CreatePrepareMessage(H, pview, hash))
+		}
+		if k%2 == 1 {
+			for i, j := 0, len(pm.PrepareMessages)-1; i < j; i, j = i+1, j-1 {
+				pm.PrepareMessages[i], pm.PrepareMessages[j] = pm.PrepareMessages[j], pm.PrepareMessages[i]
+			}
+		}
+		return pm
+	}
+	prepared = func(view primitives.View) *preparedmessages.PreparedMessages {
 		if !c.Proof {
 			return nil
 		}
@@ -423,8 +472,17 @@ func c20body(c c20case, bad func(clause, format string, a ...interface{})) {
 		for i := 0; i < c.Votes; i++ {
 			vf, _ := fac(10 + i)
 			var pm *preparedmessages.PreparedMessages
-			if i%2 == 0 {
-				pm = prepared(pv)
+			switch c.Mix {
+			case "all":
+				pm = preparedVar(pv, i)
+			case "tail":
+				if i >= c.Votes-2 {
+					pm = preparedVar(pv, i+1)
+				}
+			default:
+				if i%2 == 0 {
+					pm = prepared(pv)
+				}
 			}
 			vcms = append(vcms, vf.CreateViewChangeMessage(H, V, pm))
 		}
